@@ -13,4 +13,5 @@ func registerAll() {
 	core.Register("C14", execC14)
 	core.Register("C06", execC06)
 	core.Register("C07", execC07)
+	core.Register("C15", execC15)
 }
